@@ -267,3 +267,67 @@ func verifV1RandMerge(a, b JsonNode) string { return verifV1Merge(a, b) }
 
 // verifV1PointerPatch (C18): verifV1Patch over documents whose keys need pointer escaping.
 func verifV1PointerPatch(a, b JsonNode) string { return verifV1Patch(a, b) }
+
+// ---------------------------------------------------------------------
+// Scale (v1): a 70 kB string on one line, a 1500-element list edited at both ends, 40 levels of
+// nesting, an object with 300 keys - each with a slightly edited partner.
+func verifV1ScalePairs() ([]JsonNode, []JsonNode) {
+	long := make([]byte, 70000)
+	for i := range long {
+		long[i] = byte('a' + i%26)
+	}
+	var as, bs []JsonNode
+	as = append(as, jsonObject{"k": jsonString("old"), "l": jsonArray{jsonNumber(1), jsonNumber(2), jsonNumber(3)}, "m": jsonNumber(1)})
+	bs = append(bs, jsonObject{"k": jsonString(long), "l": jsonArray{jsonNumber(1), jsonNumber(3)}, "m": jsonNumber(2)})
+	as = append(as, jsonArray{jsonNumber(5), jsonNumber(1)})
+	bs = append(bs, jsonArray{jsonNumber(2), jsonString(long), jsonNumber(1), jsonNumber(7)})
+	x := make(jsonArray, 1500)
+	for i := range x {
+		x[i] = jsonNumber(i)
+	}
+	y := append(jsonArray{jsonString("new")}, x[:1499]...)
+	y = append(y, jsonString("edited"))
+	as = append(as, x)
+	bs = append(bs, y)
+	var deepA, deepB JsonNode = jsonNumber(1), jsonNumber(2)
+	for i := 0; i < 40; i++ {
+		if i%2 == 0 {
+			deepA, deepB = jsonObject{"a": deepA}, jsonObject{"a": deepB}
+		} else {
+			deepA, deepB = jsonArray{jsonNumber(0), deepA}, jsonArray{jsonNumber(0), deepB}
+		}
+	}
+	as = append(as, deepA)
+	bs = append(bs, deepB)
+	wideA, wideB := jsonObject{}, jsonObject{}
+	for i := 0; i < 300; i++ {
+		k := "key" + string(rune('a'+i%26)) + string(rune('a'+(i/26)%26))
+		wideA[k] = jsonNumber(i)
+		wideB[k] = jsonNumber(i)
+	}
+	wideB["keyaa"] = jsonString("changed")
+	delete(wideB, "keybb")
+	wideB["zz"] = jsonArray{}
+	as = append(as, wideA)
+	bs = append(bs, wideB)
+	return as, bs
+}
+
+func verifV1ScaleA() []JsonNode { a, _ := verifV1ScalePairs(); return a }
+func verifV1ScaleB() []JsonNode { _, b := verifV1ScalePairs(); return b }
+
+// verifV1Scale (C17, C18): the round trip (direct and through text) and the RFC renderings on a large pair.
+func verifV1Scale(a, b JsonNode) string {
+	if s := verifV1RoundTrip(a, b, nil); s != "" {
+		return "C17: " + s
+	}
+	if s := verifV1Patch(a, b); s != "" {
+		return "C18 (RFC 6902): " + s
+	}
+	if verifNullFree(a) && verifNullFree(b) {
+		if s := verifV1Merge(a, b); s != "" {
+			return "C18 (RFC 7386): " + s
+		}
+	}
+	return ""
+}
